@@ -56,12 +56,33 @@ func runC19(c *an.Ctx) {
 				if ht.ErrShape(errResult(r)) != "nil" && !isCallResult(ht, errResult(r), localHead, 1) {
 					continue
 				}
-				nRet++
 				v := r.Results[0]
 				fs := hf.AtRefined(r.Block())
+				if isCallResult(ht, errResult(r), localHead, 1) && fs.Has(an.NE(ht.Of(ht.Deref(errResult(r))), "nil")) {
+					continue // the re-read itself failed: its error is returned
+				}
+				nRet++
 				switch {
 				case isCallResult(ht, v, localHead, 0) && isCallResult(ht, errResult(r), localHead, 1):
-					c.Ok("C19.b", "head-returns-adopted", "after an update Head() returns the head that was actually adopted (re-read through localHead), not the candidate", headFn, r, "returns localHead()", fs)
+					// `return s.localHead(ctx)`: the adopted head re-read, but handed out without looking at it —
+					// when the adoption failed this is the old head, possibly expired (finding F19)
+					c.Fail("C19.b", "expired-head-not-returned", "the head Head() re-reads after an update is handed out only when it is not expired (a failed re-initialisation leaves the expired head in place: that is an error, not a head)", headFn, r, "returns localHead() as it is", fs)
+				case isCallResult(ht, v, localHead, 0) && ht.ErrShape(errResult(r)) == "nil":
+					// the re-read head returned with an explicit nil: only when the re-read succeeded and what it
+					// found is not expired — an expired head here means the re-initialisation did not go through
+					// (finding F19: the result of the adoption used to be dropped and the expired head handed out)
+					var lc *ssa.Call
+					for _, x := range callsTo(headFn, localHead) {
+						lc = x
+					}
+					notExpired := false
+					for _, ec := range callsTo(headFn, isExpired) {
+						if len(ec.Call.Args) == 2 && isCallResult(ht, ec.Call.Args[0], localHead, 0) && strings.HasSuffix(an.Stable(ht.Of(ec.Call.Args[1])), "Params.trustingPeriod") && fs.Has(an.NotB(ht.Of(ec)+"#0")) {
+							notExpired = true
+						}
+					}
+					c.Check(notExpired, "C19.b", "expired-head-not-returned", "the head Head() re-reads after an update is handed out only when it is not expired (a failed re-initialisation leaves the expired head in place: that is an error, not a head)", headFn, r, "", fs)
+					c.Check(lc != nil && fs.Has(an.EQ(ht.Of(lc)+"#1", "nil")), "C19.b", "head-returns-adopted", "after an update Head() returns the head that was actually adopted (re-read through localHead, read without error), not the candidate", headFn, r, "returns localHead(), nil", fs)
 				case ht.Of(v) == ht.Of(nc)+"#0" && fs.Has(an.NotB(ht.Of(nc)+"#1")) && fs.Has(an.EQ(ht.Of(nc)+"#2", "nil")):
 					c.Ok("C19.b", "head-returns-adopted", "without an update Head() returns the unchanged subjective head", headFn, r, "returns networkHead() (not updated)", fs)
 				default:
